@@ -602,3 +602,126 @@ pub fn malformed_leg(args: &Args) {
     rep.sample(json!({"malformed": "lone-cr-in-bulk-header", "bytes": "*1\\r\\n$4\\rPING\\r\\n", "then": "PING, PING"}));
     rep.finish(args);
 }
+
+// ---------------------------------------------------------------------------------------------
+// Connection reuse: several connections share one small buffer pool (as under the real accept
+// loop); some die in the middle of a frame. What a later connection is answered must not depend
+// on what an earlier one left behind.
+
+async fn run_conn_on(
+    state: &ShardedActorState,
+    pool: Option<&std::sync::Arc<redis_sim::production::ConnectionPool>>,
+    cmds: &[Argv],
+    tail: &[u8],
+) -> (Vec<Tree>, bool) {
+    let (stream, ctl) = conn::scripted();
+    let st = state.clone();
+    let h = match pool {
+        Some(p) => {
+            let p = p.clone();
+            tokio::spawn(async move { verif_hooks::run_connection_with_pool(stream, st, ConnectionConfig::default(), p).await })
+        }
+        None => tokio::spawn(async move { verif_hooks::run_connection(stream, st, ConnectionConfig::default()).await }),
+    };
+    let mut replies = vec![];
+    let mut bad = false;
+    for a in cmds {
+        ctl.send(&myresp::frame_v(a));
+        if ctl.wait_idle(conn::STEP_BUDGET).await.is_err() {
+            bad = true;
+            break;
+        }
+        match myresp::decode_all(&ctl.take_output()) {
+            Ok(t) => replies.extend(t),
+            Err((t, _)) => {
+                replies.extend(t);
+                bad = true;
+            }
+        }
+    }
+    if !tail.is_empty() && !bad {
+        ctl.send(tail);
+        let _ = ctl.wait_idle(conn::STEP_BUDGET).await;
+        if let Ok(t) = myresp::decode_all(&ctl.take_output()) {
+            replies.extend(t);
+        }
+    }
+    ctl.close();
+    let _ = ctl.wait_idle(conn::STEP_BUDGET).await;
+    let _ = h.await;
+    (replies, bad)
+}
+
+pub fn reuse_leg(args: &Args) {
+    let mut rep = Report::new("C04", "reuse");
+    let rt = tokio::runtime::Builder::new_current_thread().enable_all().build().unwrap();
+    let mut rng = args.rng(42);
+    let n = args.get_u64("scenarios", if args.thorough() { 3000 } else { 300 });
+    let replay: Option<Value> = args.replay.as_ref().map(|p| serde_json::from_str(&std::fs::read_to_string(p).expect("replay")).expect("json"));
+    rt.block_on(async {
+        for sc in 0..(if replay.is_some() { 1 } else { n }) {
+            // scenario: connections = (complete commands, partial tail)
+            let (pool_size, conns): (usize, Vec<(Vec<Argv>, Vec<u8>)>) = if let Some(w) = &replay {
+                let w = &w["witness"];
+                (
+                    w["pool"].as_u64().unwrap_or(1) as usize,
+                    w["conns"]
+                        .as_array()
+                        .unwrap()
+                        .iter()
+                        .map(|c| {
+                            (
+                                c["cmds"].as_array().unwrap().iter().map(|a| a.as_array().unwrap().iter().map(|x| unlossy(x.as_str().unwrap())).collect()).collect(),
+                                unlossy(c["tail"].as_str().unwrap_or("")),
+                            )
+                        })
+                        .collect(),
+                )
+            } else {
+                let mut tok = 0;
+                let k = rng.gen_range(3..9);
+                let conns = (0..k)
+                    .map(|_| {
+                        let cmds: Vec<Argv> = (0..rng.gen_range(0..4)).map(|_| gen_cmd(&mut rng, &mut tok)).collect();
+                        let tail = if rng.gen_bool(0.5) {
+                            let f = myresp::frame_v(&gen_cmd(&mut rng, &mut tok));
+                            let cut = rng.gen_range(1..f.len());
+                            f[..cut].to_vec()
+                        } else {
+                            vec![]
+                        };
+                        (cmds, tail)
+                    })
+                    .collect();
+                (rng.gen_range(1..4), conns)
+            };
+            let subject = ShardedActorState::with_shards(2);
+            let twin = ShardedActorState::with_shards(2);
+            let pool = std::sync::Arc::new(redis_sim::production::ConnectionPool::new(64, pool_size));
+            rep.evaluations += 1;
+            rep.distinct(&(pool_size, conns.len(), conns.iter().filter(|c| !c.1.is_empty()).count()));
+            let wit = json!({"pool": pool_size, "conns": conns.iter().map(|(c, t)| json!({"cmds": c.iter().map(|a| a.iter().map(|x| lossy(x)).collect::<Vec<_>>()).collect::<Vec<_>>(), "tail": lossy(t)})).collect::<Vec<_>>()});
+            for (i, (cmds, tail)) in conns.iter().enumerate() {
+                let (got, _) = run_conn_on(&subject, Some(&pool), cmds, tail).await;
+                let (exp, _) = run_conn_on(&twin, None, cmds, tail).await;
+                rep.count("connections");
+                if !tail.is_empty() {
+                    rep.count("connections_dying_mid_frame");
+                }
+                if got != exp {
+                    let earlier_partial = conns[..i].iter().any(|c| !c.1.is_empty());
+                    rep.violation(
+                        format!("C04|reuse|replies-depend-on-earlier-connection|earlier-died-mid-frame={}", earlier_partial),
+                        format!("connection #{} on a shared pool of {} buffers answered {:?}; with private buffers {:?}", i, pool_size, got, exp),
+                        wit.clone(),
+                    );
+                    break;
+                }
+            }
+            if sc < 2 {
+                rep.sample(wit);
+            }
+        }
+    });
+    rep.finish(args);
+}
